@@ -81,9 +81,12 @@ PROPS = {
         "pkg": "./c17/", "test": "TestVerif_C17", "n_quick": 500, "n_thorough": 30000, "race": True,
         "rule": "histories of GetOne (ordered/most/random/unset, ignore-zone on/off, candidate lists with duplicates and unknown ids) / Block / clock "
                 "advance around the TTL / API changes on the real SwitchPool inside a testing/synctest bubble (virtual clock) with a fake VPC API; "
-                "observed result, API calls and the caller's slice after the call are compared. non-trivial = history containing a GetOne that returned a vSwitch "
+                "observed result, API calls and the caller's slice after the call are compared. Half of the histories also contain overlapping selections: selection A is held in its first cloud lookup "
+                "(the fake API parks the call made on A's behalf) while selection B runs to completion on the same pool; the two are recorded in the order in which they took effect (B, then A) and each must "
+                "answer as the sequential model does in that order (a wrong linearisation shows as a mismatch). non-trivial = history containing a GetOne that returned a vSwitch "
                 "after at least one Block or clock advance; distinct = distinct input vectors",
-        "trusted": ["testing/synctest virtual clock (go1.26.8)", "shuffle and sort ties resolved by the observed result, validated against the legal set"],
+        "trusted": ["testing/synctest virtual clock (go1.26.8)", "shuffle and sort ties resolved by the observed result, validated against the legal set",
+                    "overlapping selections: the harness' choice of linearisation order (B before A when A was parked), attribution of cloud calls to a selection by a context value"],
         "modelled": ["k8s LRUExpireCache (size bound 100 not modelled: E9); singleflight; math/rand"],
         "assumptions": ["E9: at most 100 vSwitches cached"],
         "level_text": "Theorems for every pool state, candidate list, zone, policy and every resolution of shuffle/sort ties: result is a member, in zone unless fallback "
@@ -192,7 +195,7 @@ PROPS = {
     },
     "C06": {
         "pkg": "./pool/", "test": "TestVerif_Pool", "n_quick": 400, "n_thorough": 20000, "retry_mismatch": True, "env": {"VERIF_PROP": "C06"},
-        "rule": "as C01 with a fault-free cloud, frequent balancer passes, pools near cap, min>max and max=0 configurations; every cloud call is judged at call time against the observer's ledger "
+        "rule": "as C01 with a mostly healthy cloud (12 in 100 calls fail, before or after their effect, so that an interface whose creation failed half-way is seen with requests still waiting on it), frequent balancer passes, pools near cap, min>max and max=0 configurations; every cloud call is judged at call time against the observer's ledger "
                 "(addresses the cloud has on the interface + asked <= cap; interfaces <= slots; no unassign of a held or primary address; no delete of an interface with a held address, a waiting request, or of trunk/erdma type; "
                 "Dispose marks only addresses nobody holds). non-trivial = at least one unassign or delete call was made; distinct = distinct input vectors",
         "trusted": ["testing/synctest virtual clock and quiescence detection (go1.26.8)",
